@@ -47,17 +47,20 @@ class SimLock:
         while self._locked:
             if not blocking:
                 return False
-            if self._sched.current() is None or self._sched.aborted:
+            if self._sched.aborted:
+                raise _Abort()
+            if self._sched.current() is None:
                 raise RuntimeError("simulated lock contended outside the scheduled caller threads")
             self._sched.lock_waits += 1
-            self._sched.wait(0.0)
-        self._locked = True
+            self._sched.wait_for(self)          # parked until some thread releases this lock (no spinning: the holder
+        self._locked = True                     # may itself be asleep until a later simulated instant)
         return True
 
     def release(self):
         if not self._locked:
             raise RuntimeError("release unlocked lock")
         self._locked = False
+        self._sched.released(self)
 
     def locked(self):
         return self._locked
@@ -114,7 +117,8 @@ class _Actor:
         self.idx = idx
         self.fn = fn
         self.wake = 0.0
-        self.state = "new"          # new | parked | running | done
+        self.state = "new"          # new | parked | lockwait | running | done
+        self.waiting_on = None
         self.go = threading.Event()
         self.exc = None
         self.thread = None
@@ -132,6 +136,28 @@ class ThreadSched:
         self.lock_waits = 0
         self.aborted = False
         self._tls = threading.local()
+
+    def cooperative_locks(self, emitted_prefix):
+        """Context manager: a lock created DIRECTLY BY EMITTED CODE (a file under `emitted_prefix`: clients / transports
+        constructed for this run, or emitted methods while the threads run) is a SimLock.  Everything else - the
+        libraries' and the harness's own locks, events and conditions - stays real."""
+        sched = self
+
+        class _Ctx:
+            def __enter__(self):
+                real_lock, real_rlock = threading.Lock, threading.RLock
+                self.real = (real_lock, real_rlock)
+
+                def lock():
+                    return SimLock(sched) if sys._getframe(1).f_code.co_filename.startswith(emitted_prefix) else real_lock()
+
+                def rlock():
+                    return SimRLock(sched) if sys._getframe(1).f_code.co_filename.startswith(emitted_prefix) else real_rlock()
+                threading.Lock, threading.RLock = lock, rlock
+
+            def __exit__(self, *a):
+                threading.Lock, threading.RLock = self.real
+        return _Ctx()
 
     # ------------------------------------------------------------------ thread side
     def current(self):
@@ -151,6 +177,24 @@ class ThreadSched:
         me.go.clear()
         if self.aborted:
             raise _Abort()
+
+    def wait_for(self, lock):
+        me = self.current()
+        me.waiting_on = lock
+        me.state = "lockwait"
+        self.main.set()
+        if not me.go.wait(WAIT_S):
+            raise HarnessStall(f"actor {me.idx} was never resumed")
+        me.go.clear()
+        if self.aborted:
+            raise _Abort()
+
+    def released(self, lock):
+        for a in self.actors:
+            if a.state == "lockwait" and a.waiting_on is lock:
+                a.waiting_on = None
+                a.wake = CLOCK.now
+                a.state = "parked"
 
     def _body(self, a):
         self._tls.actor = a
@@ -193,14 +237,12 @@ class ThreadSched:
             self.actors.append(a)
             a.thread.start()
         CLOCK.sched = self
-        # locks CREATED while the threads are scheduled (e.g. by a client constructed inside the run) are cooperative
-        real_lock, real_rlock = threading.Lock, threading.RLock
-        threading.Lock = lambda: SimLock(self)
-        threading.RLock = lambda: SimRLock(self)
         try:
             while True:
                 parked = [a for a in self.actors if a.state == "parked"]
                 if not parked:
+                    if any(a.state == "lockwait" for a in self.actors):
+                        raise HarnessStall("every remaining caller thread waits for a lock that nobody will release (deadlock)")
                     break
                 tmin = min(a.wake for a in parked)
                 ready = [a for a in parked if a.wake <= tmin + 1e-12]
@@ -216,7 +258,6 @@ class ThreadSched:
                 if a.exc is not None:
                     raise a.exc
         finally:
-            threading.Lock, threading.RLock = real_lock, real_rlock
             CLOCK.sched = None
             self.aborted = True
             for a in self.actors:
